@@ -1,0 +1,7 @@
+//go:build !verif
+
+package types
+
+// sealHook lets a verification build (tag "verif") take over the ethash seal computation for
+// synthetic headers. Without the tag it never handles a header.
+func sealHook(header Header) (handled bool, err error) { return false, nil }
